@@ -352,6 +352,20 @@ func (x *Exec) verifyRoot() {
 			res = Val{Tup: rets}
 		}
 		bindResults(post.vars, fn, res)
+		// captured variables: current value in the post-state, entry value inside old()
+		for _, fv := range fn.FreeVars {
+			if bv, ok := fr.env[fv]; ok && bv.DP != nil && bv.DP.Cell != nil {
+				if cur, ok := out.cells[*bv.DP.Cell]; ok && cur.Clo == nil && cur.Fn == nil && cur.DP == nil && cur.S != "!unmergeable" {
+					if entry, ok := x.rootArgs[fv.Name()]; ok && entry.S != cur.S {
+						if post.oldVars == nil {
+							post.oldVars = map[string]Val{}
+						}
+						post.oldVars[fv.Name()] = entry
+						post.vars[fv.Name()] = cur
+					}
+				}
+			}
+		}
 		for j, cl := range ct.Ensures {
 			if ct.AssumeInv && strings.HasPrefix(cl.Name, "typeinv-") {
 				x.note("type invariant of the result of " + x.rootKey + " is assumed, not proved (assumeinv)")
@@ -645,6 +659,13 @@ func (p *Program) ApplySweepsAndTypeInvs() {
 				pre = append(pre, &Clause{Expr: &SCall{Fn: pn, Args: []SExpr{&SIdent{prm.Name()}}}, Src: pn + "(" + prm.Name() + ")", Name: "typeinv-" + prm.Name(), File: ct.File, Line: ct.Line})
 			} else if pn := elemInv(prm.Type()); pn != "" {
 				pre = append(pre, &Clause{Expr: mkAll(pn, prm.Name()), Src: "forall k :: " + pn + "(" + prm.Name() + "[k])", Name: "typeinv-" + prm.Name(), File: ct.File, Line: ct.Line})
+			}
+		}
+		for _, fv := range fn.FreeVars {
+			if pt, ok := fv.Type().Underlying().(*types.Pointer); ok {
+				if pn := inv(pt.Elem()); pn != "" {
+					pre = append(pre, &Clause{Expr: &SCall{Fn: pn, Args: []SExpr{&SIdent{fv.Name()}}}, Src: pn + "(" + fv.Name() + ")", Name: "typeinv-" + fv.Name(), File: ct.File, Line: ct.Line})
+				}
 			}
 		}
 		res := fn.Signature.Results()
